@@ -584,6 +584,13 @@ class Inliner:
             heads.append(("subject", s.subject))
         for fld, expr in heads:
             for call in self._unconditional_calls(expr):
+                if isinstance(call.func, ast.Name) and call.func.id == "next" and len(call.args) == 1 and not call.keywords and isinstance(call.args[0], ast.Call):
+                    rg = self._resolve(call.args[0], f, generator=True, root=root)
+                    if rg is not None:
+                        try:
+                            return self._expand(s, fld, call, rg[0], rg[1], f, root, first_of=call.args[0])
+                        except _NoInline as e:
+                            self.log.append(f"{f.key}: {rg[0].key} (first item of a generator) not inlined: {e}")
                 r = self._resolve(call, f, root=root)
                 if r is None:
                     continue
@@ -923,12 +930,34 @@ class Inliner:
         return pre, body
 
     # ------------------------------------------------------------------
-    def _expand(self, s, fld, call, callee, recv, f, root):
+    def _expand(self, s, fld, call, callee, recv, f, root, first_of=None):
         targets = set()
         if isinstance(s, ast.Assign) and s.value is call:
             for t in s.targets:
                 targets |= {n.id for n in ast.walk(t) if isinstance(n, ast.Name)}
-        pre, body = self._bind(call, callee, recv, root, targets)  # callee's own helpers are already expanded
+        pre, body = self._bind(first_of if first_of is not None else call, callee, recv, root, targets)  # callee's own helpers are already expanded
+        if first_of is not None:
+            # `next(helper(args))` with helper a generator: the helper runs up to its first `yield v`, and v is the value
+            def firsts(blk):
+                for i, st in enumerate(blk):
+                    if isinstance(st, ast.Expr) and isinstance(st.value, ast.Yield):
+                        blk[i] = ast.copy_location(ast.Return(st.value.value), st)
+                        continue
+                    if any(isinstance(x, (ast.Yield, ast.YieldFrom)) for x in _walk_same_func(st) if not (isinstance(x, ast.Yield) and any(
+                            isinstance(y, ast.Expr) and y.value is x for y in _walk_same_func(st)))):
+                        raise _NoInline("yield used as an expression")
+                    for fld_ in ("body", "orelse", "finalbody"):
+                        b = getattr(st, fld_, None)
+                        if isinstance(b, list) and b and isinstance(b[0], ast.stmt) and not isinstance(st, (ast.FunctionDef, ast.AsyncFunctionDef, ast.ClassDef)):
+                            firsts(b)
+                    if isinstance(st, ast.Try):
+                        for h in st.handlers:
+                            firsts(h.body)
+                    if isinstance(st, ast.Match):
+                        for c_ in st.cases:
+                            firsts(c_.body)
+
+            firsts(body)
         tag = f"__i{self.counter}"
 
         whole = getattr(s, fld) is call
@@ -1020,6 +1049,12 @@ def loopify_node(node, only=None) -> bool:
                 tgt = s.targets[0]
             elif isinstance(s, ast.AnnAssign) and isinstance(s.target, ast.Name) and isinstance(s.value, ast.ListComp):
                 tgt = s.target
+            if isinstance(s, ast.Return) and isinstance(s.value, ast.ListComp) and only is not None and only(s.value) and not any(g.is_async for g in s.value.generators):
+                # `return [E for ...]` -> `_items = [E for ...]` / `return _items` (then the assignment is rewritten below)
+                nm = "_items__r"
+                blk[i : i + 1] = [ast.copy_location(ast.Assign([ast.Name(nm, ast.Store())], s.value), s), ast.copy_location(ast.Return(ast.Name(nm, ast.Load())), s)]
+                changed = True
+                continue
             if tgt is not None and not any(g.is_async for g in s.value.generators) and (only is None or only(s.value)):
                 comp = s.value
                 used = {n.id for g in comp.generators for n in ast.walk(g.iter) if isinstance(n, ast.Name)}
